@@ -134,6 +134,7 @@ let run_case (line : string) : string =
     let n = int_of_string a.(1) in
     let m = matrix_from n (unhex a.(2)) in
     let nn = nat_of_int n in
+    if Score.dark_panics nn m then "PANIC" else   (* PERCENT_SCORE[100]: a matrix without any light module *)
     let mt = Default.transpose nn m in
     let (p1, l1) = Score.lines_score m and (p2, l2) = Score.lines_score mt in
     Printf.sprintf "%s %s %s %s %s %s" (string_of_n l1) (string_of_n l2) (string_of_n (BinNat.N.add p1 p2))
@@ -235,7 +236,7 @@ let run_case (line : string) : string =
       | None, None -> (side, side) in
     Printf.sprintf "OK %d %d 0 0 1" w h
   | "threads" -> Printf.sprintf "OK %d 0" (int_of_string a.(1) * int_of_string a.(2))
-  | "file" -> if a.(2) = "ok" || a.(2) = "overwrite" then "RET_OK same=1" else "RET_ERR"
+  | "file" -> if a.(2) = "ok" || a.(2) = "overwrite" then "RET_OK same=1" else "RET_ERR"   (* fsize: the oracle's write_all fails *)
   | _ -> Render.run_case a
 
 let () =
